@@ -107,7 +107,14 @@ P: dict[str, dict[str, str]] = {
         "c.py": "import b\nclass C:\n    def m(self) -> None: ...\n",
     },
 }
-P["sink_pkg"] = dict(P["sink"])
+# per-module interplay: module a carries the per-module option, b imports a and shows a's interface
+P["ip_implicit_optional"] = {"a.py": "def f(x: int = None) -> None: ...\n", "b.py": "from a import f\nreveal_type(f)\n"}
+P["ip_strict_optional"] = {"a.py": "x: int = None\n", "b.py": "import a\nreveal_type(a.x)\n"}
+P["ip_partial"] = {"a.py": "x = []\ndef f() -> None:\n    x.append(1)\n", "b.py": "import a\nreveal_type(a.x)\n"}
+P["ip_always_true"] = {"a.py": "FLAG = bool(input())\nif FLAG:\n    x = 1\nelse:\n    x = ''\n", "b.py": "import a\nreveal_type(a.x)\n"}
+P["ip_untyped_globals"] = {"a.py": "x = []\n", "b.py": "import a\nreveal_type(a.x)\n"}
+P["ip_untyped_defs"] = {"a.py": "def f(x): ...\n", "b.py": "import a\nreveal_type(a.f)\n"}
+P["ip_ignore_errors"] = {"a.py": "def f() -> int:\n    return ''\n", "b.py": "import a\nx: str = a.f()\n"}
 
 SITE = {
     "sp/typedpkg/__init__.py": 'def f(x: str) -> None: ...\nbad: int = ""\n',
@@ -159,8 +166,9 @@ def setup_incomplete_stub(d: str) -> None:
 TABLE: list[dict[str, Any]] = []
 
 
-TRUECOLD = {"warn_incomplete_stub", "custom_typeshed_dir", "custom_typing_module", "no_silence_site_packages", "python_executable",
-            "no_site_packages", "follow_untyped_imports", "test_env", "use_builtins_fixtures"}
+# attributes whose chains never start from the typeshed-only template cache (they replace typeshed itself); in the
+# thorough tier EVERY chain starts from an empty cache directory
+TRUECOLD = {"warn_incomplete_stub", "custom_typeshed_dir"}
 
 
 def E(attr: str, prog: str, a: str | None, b: str | None, **kw: Any) -> None:
@@ -212,7 +220,7 @@ def build_table() -> None:
     E("warn_return_any", "return_any", F, T)
     E("warn_unreachable", "unreachable", F, T)
     E("warn_unused_ignores", "unused_ignore", F, T)
-    E("debug_cache", "sink", F, T, same=True)
+    E("debug_cache", "sink", F, T, same=True, tier="thorough")
     # ---- global key options
     E("platform", "platform", "linux", "win32")
     E("bazel", "sink", F, T, same=True, tier="thorough")
@@ -232,7 +240,7 @@ def build_table() -> None:
     E("show_column_numbers", "column", F, T)
     E("show_error_end", "column", F, T, extra=["show_column_numbers = True"])
     E("hide_error_codes", "column", F, T)
-    E("hide_error_codes", "untyped_global", F, T, extra=["show_error_code_links = True"])
+    E("hide_error_codes", "untyped_global", F, T, extra=["show_error_code_links = True"], tier="thorough")
     E("python_version", "pyversion", "3.11", "3.12", extra=["bazel = True"], only=["config"], tier="thorough", tag="bazel")
     E("pretty", "column", F, T)
     E("color_output", "column", T, F, env={"MYPY_FORCE_COLOR": "1"})
@@ -269,7 +277,17 @@ def build_table() -> None:
     E("semantic_analysis_only", "assign", F, T)
     E("ignore_missing_imports_per_module", "missing_stub_pkg", None, None, special="imi_per_module")
     E("skip_version_check", "platform", None, None, special="skip_version_check")
-    E("incremental", "assign", T, F, same=True)
+    E("incremental", "assign", T, F, same=True, tier="thorough")
+    # ---- per-module interplay: a's per-module option (section / inline) changes, b imports a; only b is a target.
+    #      When the option changes a's INTERFACE, b must not be replayed from the cache (tag -> own finding key).
+    E("implicit_optional", "ip_implicit_optional", F, T, target=["b.py"], only=["section", "inline"], tag="interplay")
+    E("local_partial_types", "ip_partial", T, F, target=["b.py"], only=["section", "inline"], tag="interplay", tier="thorough")
+    E("always_true", "ip_always_true", None, "FLAG", target=["b.py"], only=["section", "inline"], tag="interplay", tier="thorough")
+    E("allow_untyped_globals", "ip_untyped_globals", F, T, target=["b.py"], only=["section", "inline"], tag="interplay", tier="thorough")
+    # controls: the interface of a does not change, only a's own diagnostics
+    E("disallow_untyped_defs", "ip_untyped_defs", F, T, target=["b.py"], only=["section", "inline"], tag="interplay", tier="thorough")
+    E("ignore_errors", "ip_ignore_errors", F, T, target=["b.py"], only=["section", "inline"], tag="interplay", tier="thorough")
+    E("strict_optional", "ip_strict_optional", T, F, target=["b.py"], only=["section", "inline"], tag="interplay", tier="thorough")
     # ---- expected inert: toggled on the kitchen-sink program; cold outputs must be equal, warm must equal cold
     for attr, a, b in [
         ("skip_cache_mtime_checks", F, T), ("cache_fine_grained", F, T), ("debug_serialize", F, T),
@@ -281,9 +299,7 @@ def build_table() -> None:
         ("junit_xml", None, "junit.xml"), ("disable_bytearray_promotion", T, F), ("disable_memoryview_promotion", T, F),
         ("mypyc_skip_c_generation", F, T),
     ]:
-        E(attr, "sink", a, b, same=True, only=["config"], tier="quick" if attr in (
-            "skip_cache_mtime_checks", "cache_fine_grained", "debug_serialize", "fine_grained_incremental",
-            "use_fine_grained_cache", "sqlite_num_shards", "export_ref_info", "test_env", "preserve_asts") else "thorough")
+        E(attr, "sink", a, b, same=True, only=["config"], tier="quick" if attr in ("cache_fine_grained", "sqlite_num_shards") else "thorough")
 
 
 # Attributes that are never toggled, with the reason (they must be classified inert with that reason).
@@ -516,7 +532,27 @@ def canon(r: dict[str, Any], d: str) -> dict[str, Any]:
     return r
 
 
-def run_chain(v: dict[str, Any], root: str, idx: int, first: str, template: str | None = None) -> dict[str, Any]:
+def scrub_user_entries(cache: str, files: dict[str, str]) -> int:
+    """Delete the cache entries of the program's own modules from every sqlite shard under `cache` (typeshed entries stay)."""
+    import glob
+    import sqlite3
+    prefixes = sorted({re.sub(r"(/__init__)?\.pyi?$", "", f) + "." for f in files if f.endswith((".py", ".pyi"))}
+                      | {re.sub(r"\.pyi?$", "", f) + "." for f in files if f.endswith((".py", ".pyi"))})
+    n = 0
+    for db in glob.glob(os.path.join(cache, "**", "*.db"), recursive=True):
+        con = sqlite3.connect(db)
+        try:
+            for pre in prefixes:
+                cur = con.execute("DELETE FROM files2 WHERE path LIKE ? ESCAPE '!'", (pre.replace("!", "!!").replace("_", "!_").replace("%", "!%") + "%",))
+                n += cur.rowcount
+            con.commit()
+        finally:
+            con.close()
+    return n
+
+
+def run_chain(v: dict[str, Any], root: str, idx: int, first: str, template: str | None = None,
+              warm: bool = True, ref: bool = False) -> dict[str, Any]:
     """One direction: a cold run with side `first` (empty cache directory), then a warm run with the other side on
     the cache it left.  Every chain has its own project directory (same path length; the path is canonicalised)."""
     second = "B" if first == "A" else "A"
@@ -532,9 +568,20 @@ def run_chain(v: dict[str, Any], root: str, idx: int, first: str, template: str 
             # typeshed pre-warmed (default options); the user modules are cold
             shutil.copytree(template, cache, symlinks=True)
         r1 = canon(run_mypy(d, cache, v["cfg" + first], v["flags" + first], v["target"], v.get("env")), d)
+        if not warm:
+            return {"cold": r1, "warm": None}     # reference run only (quick tier: one direction)
         write_files(d, files[second])
         c2 = cache + "-other" if (v.get("special") == "cache_dir") else cache
         r2 = canon(run_mypy(d, c2, v["cfg" + second], v["flags" + second], v["target"], v.get("env"), verbose=True), d)
+        if ref:
+            # quick tier, global key options: the reference run reuses the typeshed entries that run 2 has just
+            # re-checked under the new options (the snapshot differed) and is cold for the program's own modules
+            n = scrub_user_entries(c2, files[second])
+            r3 = canon(run_mypy(d, c2, v["cfg" + second], v["flags" + second], v["target"], v.get("env"), verbose=True), d)
+            mods = {re.sub(r"(/__init__)?\.pyi?$", "", f).replace("/", ".") for f in files[second] if f.endswith((".py", ".pyi"))}
+            if n == 0 or any(re.search(r"Metadata fresh for (%s):" % "|".join(map(re.escape, sorted(mods))), l) for l in r3.get("log", [])):
+                r3["stderr"] += "\n[harness: reference run was not cold for the user modules]"
+            return {"cold": r1, "warm": r2, "ref": r3}
         return {"cold": r1, "warm": r2}
     finally:
         shutil.rmtree(d, ignore_errors=True)
@@ -542,11 +589,17 @@ def run_chain(v: dict[str, Any], root: str, idx: int, first: str, template: str 
 
 def combine(v: dict[str, Any], ca: dict[str, Any], cb: dict[str, Any]) -> dict[str, Any]:
     res: dict[str, Any] = {"attr": v["attr"], "spelling": v["spelling"], "prog": v["prog"], "a": v["a"], "b": v["b"],
-                           "same": v["same"], "mod": v["mod"], "special": v.get("special"), "tag": v.get("tag"), "dirs": {}, "runs": 4}
-    cold = {"A": ca["cold"], "B": cb["cold"]}
+                           "same": v["same"], "mod": v["mod"], "special": v.get("special"), "tag": v.get("tag"), "dirs": {},
+                           "runs": 0}
+    cold = {"A": ca["cold"], "B": ca["ref"] if cb is None else cb["cold"]}
+    if cb is None:
+        cb = {"warm": None}
+    res["runs"] = 2 + sum(1 for c in (ca, cb) if c["warm"] is not None)
     res["cold_differ"] = obs(cold["A"]) != obs(cold["B"])
     res["coldA"], res["coldB"] = cold["A"], cold["B"]
     for first, second, ch in (("A", "B", ca), ("B", "A", cb)):
+        if ch["warm"] is None:
+            continue
         stale = obs(ch["warm"]) != obs(cold[second])
         res["dirs"][first + second] = {"stale": stale, "log": ch["warm"].get("log", [])[:200], "warm": ch["warm"] if stale else None}
     return res
@@ -564,18 +617,24 @@ def make_template(root: str) -> str:
     return c
 
 
-def run_matrix(vs: list[dict[str, Any]], jobs: int, log=print, use_template: bool = True) -> list[dict[str, Any]]:
+def run_matrix(vs: list[dict[str, Any]], jobs: int, log=print, use_template: bool = True,
+               both: bool = True) -> list[dict[str, Any]]:
     root = tempfile.mkdtemp(prefix="verif-c09-")
     try:
         t = time.time()
         template = make_template(root) if use_template else None
-        log(f"template cache: {time.time()-t:.1f}s; {len(vs)} variants x 2 directions x 2 runs")
+        log(f"template cache: {time.time()-t:.1f}s; {len(vs)} variants x " + ("2 directions x 2 runs" if both else "1 direction (A->B): 3 runs"))
         for v in vs:
             if v.get("special"):
                 special_variant(v)
         with ThreadPoolExecutor(max_workers=jobs) as ex:
-            futs = [(ex.submit(run_chain, v, root, i, "A", template), ex.submit(run_chain, v, root, i, "B", template)) for i, v in enumerate(vs)]
-            return [combine(v, fa.result(), fb.result()) for v, (fa, fb) in zip(vs, futs)]
+            futs = []
+            for i, v in enumerate(vs):
+                if not both and v.get("scrub_ref"):
+                    futs.append((ex.submit(run_chain, v, root, i, "A", template, True, True), None))
+                else:
+                    futs.append((ex.submit(run_chain, v, root, i, "A", template), ex.submit(run_chain, v, root, i, "B", template, both)))
+            return [combine(v, fa.result(), fb.result() if fb is not None else None) for v, (fa, fb) in zip(vs, futs)]
     finally:
         shutil.rmtree(root, ignore_errors=True)
 
@@ -618,11 +677,11 @@ def select_variants(quick: bool) -> list[dict[str, Any]]:
         by = {v["spelling"]: v for v in allv}
         if e["attr"] in pm and "section" in by:
             vs.append(by["section"])         # keeps typeshed warm: cheap
-        elif e["attr"] in key:
-            vs.append(by.get("config") or allv[0])
         else:
-            # attributes outside the key: the config spelling and the command-line spelling
-            vs += [by[k] for k in ("config", "cmdline") if k in by] or allv[:1]
+            v = by.get("config") or allv[0]
+            if e["attr"] in key and not v.get("special") and not v.get("truecold") and e["attr"] not in ("fixed_format_cache",):
+                v["scrub_ref"] = True       # global key option: every typeshed module is re-checked by run 2 anyway
+            vs.append(v)
     return vs
 
 
@@ -655,6 +714,8 @@ def predict(ctx: vlib.Ctx, results: list[dict[str, Any]], classes: dict[str, Any
         if r["attr"] in NO_PREDICT or r.get("special") or r.get("tag") or r["spelling"] == "inline":
             continue
         for d, (x, y) in (("AB", (r["a"], r["b"])), ("BA", (r["b"], r["a"]))):
+            if d not in r["dirs"]:
+                continue
             g1 = [(r["attr"], x)] if x is not None else []
             g2 = [(r["attr"], y)] if y is not None else []
             if r["spelling"] == "section":
@@ -723,10 +784,10 @@ def judge(ctx: vlib.Ctx, results: list[dict[str, Any]], classes: dict[str, Any])
             r, d = stale[0]
             w = r["dirs"][d]["warm"]
             what = (f"option `{attr}` ({r['spelling']} spelling, {r['a']!r}->{r['b']!r} direction {d}): run 2 on the cache of run 1 "
-                    f"differs from a cold run with run 2's options; stale in {len(stale)} of {2 * len(rs)} toggles")
+                    f"differs from a cold run with run 2's options; stale in {len(stale)} of {sum(len(x['dirs']) for x in rs)} toggles")
             ctx.violation(f"F4:{attr}", what, {"kind": "toggle", **repro(r, d), "all_stale": [(x["spelling"], dd) for x, dd in stale]})
         elif cls == "finding":
-            ctx.broke("C", "classification", f"{attr} is classified `finding` but none of its {2 * len(rs)} toggles is stale: reclassify")
+            ctx.broke("C", "classification", f"{attr} is classified `finding` but none of its {sum(len(x['dirs']) for x in rs)} toggles is stale: reclassify")
         for r in rs:
             if r["same"] and r["cold_differ"] and cls == "inert":
                 ctx.broke("C", "inert witness", f"{attr} is classified inert but changes the cold output of program {r['prog']}",
@@ -801,8 +862,11 @@ def run(ctx: vlib.Ctx) -> None:
         vs = [v for v in vs if v["attr"] in only.split(",")]
         ctx.log(f"VERIF_C09_ONLY: matrix restricted to {len(vs)} variants")
     t = time.time()
-    results = run_matrix(vs, vlib.NPROC, log=ctx.log, use_template=ctx.quick)
-    ctx.log(f"toggle matrix: {len(vs)} variants, {sum(r['runs'] for r in results)} mypy runs in {time.time()-t:.1f}s")
+    c0 = os.times()
+    results = run_matrix(vs, vlib.NPROC, log=ctx.log, use_template=ctx.quick, both=not ctx.quick)
+    c1 = os.times()
+    ctx.cov["matrix_cpu_s"] = round((c1.children_user + c1.children_system) - (c0.children_user + c0.children_system), 1)
+    ctx.log(f"toggle matrix: {len(vs)} variants, {sum(r['runs'] for r in results)} mypy runs in {time.time()-t:.1f}s wall, {ctx.cov['matrix_cpu_s']}s CPU")
     judge(ctx, results, classes)
     predict(ctx, results, classes)
     for r in results[:400]:
